@@ -55,14 +55,58 @@ def _worker_init():
     logging.disable(logging.CRITICAL)
 
 
+def _library_frame(tb):
+    """(relative file, function) of the innermost frame if the exception was raised inside the
+    library under test, else None."""
+    repo = os.path.realpath(REPO) + os.sep
+    last = None
+    while tb is not None:
+        last = tb
+        tb = tb.tb_next
+    if last is None:
+        return None
+    f = os.path.realpath(last.tb_frame.f_code.co_filename)
+    if f.startswith(repo + "spacepackets" + os.sep):
+        return f[len(repo):], last.tb_frame.f_code.co_name
+    return None
+
+
 def _worker_run(arg):
     pid, idx, item = arg
     mod = load_check(pid)
     try:
         res = mod.run_shard(item)
-    except BaseException as e:  # harness bug inside a shard: report, never a verdict
-        return idx, {"harness_error": "".join(traceback.format_exception(type(e), e, e.__traceback__))[-4000:], "shard": repr(item)[:300]}
+    except BaseException as e:
+        lib = _library_frame(e.__traceback__) if isinstance(e, Exception) else None
+        text = "".join(traceback.format_exception(type(e), e, e.__traceback__))[-4000:]
+        if lib is not None:
+            # An exception raised INSIDE the library escaped through an operation the check's script
+            # expects to succeed (every expected refusal is caught where it is expected): the shard's
+            # deterministic execution sequence is the witness.  Exceptions raised in harness frames
+            # stay harness errors (exit 2), they are never a verdict.
+            from mc.rec import Rec
+            rec = Rec(pid, item)
+            rec.case(True)
+            rec.violation(f"{pid}.crash/{lib[0]}:{lib[1]}/{type(e).__name__}", {"__shard__": item},
+                          observed=text[-1500:], expected="the operation succeeds (it does on the reference tree) or the refusal is one the check anticipates",
+                          note="library exception escaped the check's script; replay re-executes the whole shard")
+            res = rec.result()
+            res["shard_item"] = item
+            return idx, res
+        # harness bug inside a shard: report, never a verdict
+        return idx, {"harness_error": text, "shard": repr(item)[:300]}
+    if isinstance(res, dict):
+        res["shard_item"] = item
     return idx, res
+
+
+def replay_case(pid, mod, case):
+    """Re-execute one violation case.  A case {"__shard__": item} stands for the whole
+    (deterministic) execution sequence of that shard."""
+    if isinstance(case, dict) and "__shard__" in case:
+        _i, r = _worker_run((pid, 0, case["__shard__"]))
+        return r
+    return mod.replay(case)
 
 
 def run_shards(pid: str, items, workers: int, seed: int):
@@ -100,6 +144,7 @@ def aggregate(results):
         for k in ("evaluations", "ops", "nontrivial", "states", "transitions", "traces", "viol_count"):
             agg[k] += r.get(k, 0)
         for sig, v in r.get("violations", {}).items():
+            v.setdefault("shard_item", r.get("shard_item"))
             old = agg["violations"].get(sig)
             # keep the simplest witness per signature (shortest case), ties: first in shard order
             if old is None or len(json.dumps(v["case"])) < len(json.dumps(old["case"])):
@@ -224,6 +269,11 @@ def main(argv=None):
         if a.replay:
             return do_replay(pid, mod, a.replay)
         items = mod.shards(a.tier)
+        try:
+            if json.loads(json.dumps(items)) != items:
+                raise ValueError("not stable under a JSON round trip")
+        except (TypeError, ValueError) as e:
+            raise HarnessError(f"shards() of {pid} must return plain JSON data (a shard is also a replay artefact): {e}")
         results = run_shards(pid, items, a.workers, seed)
         agg = aggregate(results)
         extra_cov = mod.finalize(a.tier, agg) if hasattr(mod, "finalize") else {}
@@ -238,11 +288,24 @@ def main(argv=None):
         # the harness never reports what it cannot reproduce (DESIGN.md 5.7)
         confirmed = []
         for v in new[:40]:
-            r = mod.replay(v["case"])
+            r = replay_case(pid, mod, v["case"])
             if "harness_error" in r:
                 raise HarnessError(r["harness_error"])
             if v["sig"] not in r.get("violations", {}):
-                raise HarnessError("violation %s did not reproduce when its case was re-executed: %s" % (v["sig"], json.dumps(v["case"])[:400]))
+                # The single case does not fail in isolation.  Either the harness is not deterministic
+                # (a harness error) or the outcome depends on what the library did EARLIER in the same
+                # process (state leaking between calls: caches, shared templates, module-level buffers).
+                # Decide by re-executing the shard's whole deterministic sequence: if the same signature
+                # comes back, the history-dependent failure is real and the shard is its replay.
+                shard = v.get("shard_item")
+                r2 = replay_case(pid, mod, {"__shard__": shard}) if shard is not None else {}
+                if "harness_error" in r2:
+                    raise HarnessError(r2["harness_error"])
+                if v["sig"] not in r2.get("violations", {}):
+                    raise HarnessError("violation %s did not reproduce when its case was re-executed: %s" % (v["sig"], json.dumps(v["case"])[:400]))
+                v = dict(v, case={"__shard__": shard, "first_failing_case": v["case"]},
+                         note=((v.get("note") or "") + " [history-dependent: the case passes when executed alone in a fresh process and fails "
+                               "within the shard's execution sequence, i.e. state leaks between library calls; replay re-executes the shard]").strip())
             confirmed.append(v)
         wall = time.time() - t0
         if not a.no_evidence:
@@ -270,7 +333,7 @@ def main(argv=None):
 
 def do_replay(pid, mod, path):
     doc = json.load(open(path, encoding="utf-8"))
-    r = mod.replay(doc["case"])
+    r = replay_case(pid, mod, doc["case"])
     if "harness_error" in r:
         raise HarnessError(r["harness_error"])
     vs = r.get("violations", {})
